@@ -135,7 +135,7 @@ void profile_storm(RunCtx& ctx)
                 // model-level faults: well-formed XML whose meaning is wrong (duplicate names, wrong argument counts, ...)
                 Model mf = base;
                 int applied = 0;
-                for (int tries = 0; tries < 4 && applied < 2; ++tries) {
+                for (int tries = 0, want = rng.chance(0.6) ? 1 : 2; tries < 4 && applied < want; ++tries) {
                     int f = rng.below(MF_COUNT);
                     if (apply_model_fault(mf, f, rng)) {
                         what += std::string{"+"} + model_fault_name(f);
@@ -172,7 +172,7 @@ void profile_storm(RunCtx& ctx)
             if (rng.chance(0.35)) {
                 Model mf = base;
                 int applied = 0;
-                for (int tries = 0; tries < 4 && applied < 2; ++tries) {
+                for (int tries = 0, want = rng.chance(0.6) ? 1 : 2; tries < 4 && applied < want; ++tries) {
                     int f = rng.below(MF_COUNT);
                     if (apply_model_fault(mf, f, rng)) {
                         what += std::string{"+"} + model_fault_name(f);
